@@ -3,6 +3,7 @@ SER = "hippolyzer/lib/base/serialization.py"
 HELPERS = "hippolyzer/lib/base/helpers.py"
 MESH = "hippolyzer/lib/base/mesh.py"
 DES = "hippolyzer/lib/base/message/udpdeserializer.py"
+TEMPL = "hippolyzer/lib/base/templates.py"
 
 VARIANTS = [
     # ------------------------------------------------------------------ R1 breaking
@@ -442,8 +443,52 @@ VARIANTS = [
     {"name": "P R14 scoped_pod sets the flag before entering the try", "file": SER, "expect": "silent",
      "old": "        old_pod = self.pod\n        try:\n            self.pod = pod\n            yield\n",
      "new": "        old_pod = self.pod\n        self.pod = pod\n        try:\n            yield\n"},
+    # ------------------------------------------------------------------ round 7: hooks, loop shapes, lossy reads, regex
+    {"name": "P R5/R1 typed-bytes inner reader class taken from a class attribute hook", "file": SER, "expect": "silent",
+     "edits": [
+         {"file": SER, "old": "class TypedBytesBase(SerializableBase, abc.ABC):\n    _bytes_tmpl: BytesBase\n",
+          "new": "class TypedBytesBase(SerializableBase, abc.ABC):\n    _bytes_tmpl: BytesBase\n    WINDOW_READER = BufferReader\n"
+                 "    WINDOW_WRITER = BufferWriter\n"},
+         {"file": SER, "old": "        inner_reader = BufferReader(endianness, buf, pod=pod)\n",
+          "new": "        inner_reader = self.WINDOW_READER(endianness, buf, pod=pod)\n"},
+         {"file": SER, "old": "            inner_writer = BufferWriter(writer.endianness)\n",
+          "new": "            inner_writer = self.WINDOW_WRITER(writer.endianness)\n"}]},
+    {"name": "P R1 TEFaceBitfield reader as loop-and-a-half with early return", "file": TEMPL, "expect": "silent",
+     "old": "        while have_next:\n            char = reader.read(se.U8, ctx=ctx)\n            have_next = char & 0x80\n"
+            "            val |= char & 0x7F\n            if have_next:\n                val <<= 7\n",
+     "new": "        while True:\n            char = reader.read(se.U8, ctx=ctx)\n            val |= char & 0x7F\n"
+            "            if not char & 0x80:\n                break\n            val <<= 7\n"},
+    {"name": "R15 CStr drops trailing NULs of its payload (nothing on the write side adds them)", "file": SER,
+     "expect": "C08.R15",
+     "old": "        return self._bytes_tmpl.deserialize(reader, ctx).decode(self._encoding)\n",
+     "new": "        return self._bytes_tmpl.deserialize(reader, ctx).rstrip(b\"\\x00\").decode(self._encoding)\n"},
+    {"name": "R15 StrFixed strips whitespace as well as the padding", "file": SER, "expect": "C08.R15",
+     "old": "        if len(instance) > self._length:\n            raise ValueError(f\"{instance!r} can't fit in {self._length}\")\n"
+            "        # Pad with nulls\n        instance += b\"\\x00\" * (self._length - len(instance))\n"
+            "        writer.write(self._bytes_tmpl, instance, ctx=ctx)\n\n    def deserialize(self, reader: Reader, ctx):\n"
+            "        return reader.read(self._bytes_tmpl, ctx=ctx).rstrip(b\"\\x00\").decode(\"utf8\")\n",
+     "new": "        if len(instance) > self._length:\n            raise ValueError(f\"{instance!r} can't fit in {self._length}\")\n"
+            "        # Pad with nulls\n        instance += b\"\\x00\" * (self._length - len(instance))\n"
+            "        writer.write(self._bytes_tmpl, instance, ctx=ctx)\n\n    def deserialize(self, reader: Reader, ctx):\n"
+            "        return reader.read(self._bytes_tmpl, ctx=ctx).rstrip(b\"\\x00\").decode(\"utf8\").strip()\n"},
+    {"name": "P R15 Str and StrFixed share a module-level decode helper that strips the padding", "file": SER,
+     "expect": "silent",
+     "edits": [
+         {"file": SER, "old": "class Str(SerializableBase):\n",
+          "new": "def _unpad(raw, codec=\"utf8\"):\n    return bytes(raw).rstrip(b\"\\x00\").decode(codec)\n\n\nclass Str(SerializableBase):\n"},
+         {"file": SER, "old": "        return reader.read(self._bytes_tmpl, ctx=ctx).rstrip(b\"\\x00\").decode(\"utf8\")\n",
+          "new": "        return _unpad(reader.read(self._bytes_tmpl, ctx=ctx))\n", "all": True}]},
+    {"name": "R16 BytesTerminated looks for terminators with a character class built from the raw bytes", "file": SER,
+     "expect": "C08.R16",
+     "old": "        self.terminators = terminators\n        self.write_terminator = write_terminator\n",
+     "new": "        self.terminators = terminators\n        self._term_re = re.compile(b\"[\" + b\"\".join(terminators) + b\"]\")\n"
+            "        self.write_terminator = write_terminator\n"},
+    {"name": "P R16 BytesTerminated terminator regex built from escaped alternatives", "file": SER, "expect": "silent",
+     "old": "        self.terminators = terminators\n        self.write_terminator = write_terminator\n",
+     "new": "        self.terminators = terminators\n        self._term_re = re.compile(b\"|\".join(re.escape(t) for t in terminators))\n"
+            "        self.write_terminator = write_terminator\n"},
     # ------------------------------------------------------------------ documented limits (value level)
-    {"name": "X Str strips NULs on both ends (same wire shape, different value)", "file": SER, "expect": "miss",
+    {"name": "R15 Str strips NULs on both ends although the writer only appends one", "file": SER, "expect": "C08.R15",
      "old": "                instance += b\"\\x00\"\n        writer.write(self._bytes_tmpl, instance, ctx=ctx)\n\n"
             "    def deserialize(self, reader: Reader, ctx):\n        return reader.read(self._bytes_tmpl, ctx=ctx).rstrip(",
      "new": "                instance += b\"\\x00\"\n        writer.write(self._bytes_tmpl, instance, ctx=ctx)\n\n"
